@@ -53,7 +53,7 @@ def generate(prop, rng, index, tier):
     for nm in chosen:
         spec = {"name": nm, "package": rng.random() < 0.35, "commands": _cmds(rng, rng.randint(1, 2)), "subs": []}
         if spec["package"]:
-            for s in rng.sample(["sub", "io", "extra"], rng.randint(1, 2)):
+            for s in rng.sample(["sub", "io", "extra", "_legacy"], rng.randint(1, 2)):
                 spec["subs"].append({"name": s, "commands": _cmds(rng, 1)})
         universe.append(spec)
     # a library whose name differs from a dotted sub-library name only in the dot (lib_sub / libxsub next to lib.sub)
@@ -86,6 +86,8 @@ def generate(prop, rng, index, tier):
                 pair = [pk["name"], pk["name"] + "." + rng.choice(pk["subs"])["name"]]
                 rng.shuffle(pair)
                 libs = pair
+            if rng.random() < 0.06:
+                libs = libs + ["nolib_zz"] if rng.random() < 0.5 else ["nolib_zz"] + libs   # not installed
             ops.append(["PROGRAM", libs])
         elif r < 0.87:
             libs = rng.sample(tops, rng.randint(1, min(2, len(tops))))
@@ -309,6 +311,21 @@ def _run_history(sc, res, log, Program, MPilotError, mc, importlib):
 
     def check_program(libs, builtin=None, label="PROGRAM"):
         libs_all = tuple(BUILTIN[builtin]) + tuple(libs) if builtin else tuple(libs)
+        if "nolib_zz" in libs_all:
+            # a requested library is not installed: construction fails (how is not this property's business); what was
+            # imported before the failure stays imported, and later requests must be answered as always
+            try:
+                Program(libraries=libs_all)
+                res.violate("C19.lookup", "C19.lookup missing-library-accepted", "Program(libraries=%r) was constructed" % (libs_all,))
+            except Exception as exc:  # noqa
+                log.emit("program", libs=list(libs_all), ok=False, exc=type(exc).__name__)
+            for lib in libs_all[:libs_all.index("nolib_zz")]:
+                if lib in static:
+                    note_import(lib)
+                    for sub in packages.get(lib, []):
+                        imported.add(sub)
+            res.probe("request that names a library which is not installed")
+            return None
         try:
             program = Program(libraries=libs_all)
             err = None
